@@ -49,8 +49,17 @@
 //!     (c4) prefix {none, Marker, Padding(4), Marker+Padding} (packets the message parser skips) x appended behind the
 //!     container {00, 00 00 00 00, 16 x 7F, a complete second literal packet} x consumer {read_to_end, read 7,
 //!     fill_buf/consume}: never a clean end; control: the prefix with nothing appended decrypts to the payload.
+//!     (c5) SEIPDv2 messages of EVERY chunk size 64 B .. 4 MiB (payloads 0, 1, 100): every value 0..=255 of the version,
+//!     cipher, AEAD and chunk size octet of the SEIPDv2 header other than the original => never a clean end, 0 octets released.
+//!  Consumer kind `Blocks(n)` (n = 16, 64, 4096; in every consumer sweep): fills fixed blocks with read(&mut block[pos..]) and
+//!     issues read(&mut []) at the very start and whenever a block is full: the result must be the read_to_end result.
+//!     Used for Dearmor (a1), Base64Decoder (a7) and the stream decryptors (F6); NOT for `Message` (Message::read(&mut [])
+//!     fails on the reference tree: suspected defect, reported separately).
+//!  F6 stream decryptors used directly (d1): SymmetricKeyAlgorithm::stream_decryptor_protected (check-first / streaming) over
+//!     encrypt_protected output and aead::StreamDecryptor::new_rfc9580 (chunk 64 / 4096) over the data of a built message,
+//!     source whole / pieces 7, consumers {read_to_end, read 1, read 97, fill_buf/consume, Blocks 16/64/4096}: same result.
 //!  F4 SEIPDv1 length sweep (C01): from_bytes payload lengths around the 8 KiB / 16 KiB decryptor refill boundaries, both
-//!     read modes; F5 SEIPDv2 with every chunk size 64 B .. 32 KiB.
+//!     read modes; F5 SEIPDv2 with every chunk size 64 B .. 4 MiB.
 //! usage: c09_bounded <N> [replay-case-hex]
 use pgp::armor::{self, BlockType, Dearmor, Headers};
 use pgp::composed::{
@@ -362,6 +371,45 @@ enum Consumer {
     ReadToEnd,
     Read(usize),
     BufRead,
+    /// fills fixed blocks of n octets with `read(&mut block[pos..])`; issues one `read(&mut [])` at the very start and
+    /// whenever a block is exactly full (legal for std::io::Read: must answer Ok(0) and change nothing)
+    Blocks(usize),
+}
+
+fn consume_blocks<R: Read>(r: &mut R, n: usize) -> (Vec<u8>, io::Result<()>) {
+    let mut out = Vec::new();
+    let mut empty: [u8; 0] = [];
+    match r.read(&mut empty) {
+        Ok(0) => {}
+        Ok(k) => return (out, Err(io::Error::other(format!("harness: read into an empty buffer returned Ok({k})")))),
+        Err(e) => return (out, Err(e)),
+    }
+    loop {
+        let mut block = vec![0u8; n];
+        let mut pos = 0;
+        let mut eof = false;
+        loop {
+            // pos == n: the read into the empty rest of the block
+            match r.read(&mut block[pos..]) {
+                Ok(0) if pos == n => break,
+                Ok(0) => {
+                    eof = true;
+                    break;
+                }
+                Ok(k) if pos + k <= n => pos += k,
+                Ok(k) => return (out, Err(io::Error::other(format!("harness: read returned Ok({k}) for a buffer of {} octets", n - pos)))),
+                Err(ref e) if e.kind() == io::ErrorKind::Interrupted => {}
+                Err(e) => {
+                    out.extend_from_slice(&block[..pos]);
+                    return (out, Err(e));
+                }
+            }
+        }
+        out.extend_from_slice(&block[..pos]);
+        if eof {
+            return (out, Ok(()));
+        }
+    }
 }
 
 /// consume a reader to its end with the given pattern; returns what was handed out and the final result
@@ -383,6 +431,7 @@ fn consume<R: Read + BufRead>(r: &mut R, c: Consumer) -> (Vec<u8>, io::Result<()
                 }
             }
         }
+        Consumer::Blocks(n) => consume_blocks(r, n),
         Consumer::BufRead => loop {
             let k = match r.fill_buf() {
                 Ok([]) => return (out, Ok(())),
@@ -411,6 +460,7 @@ fn consume_read_only<R: Read>(r: &mut R, c: Consumer) -> (Vec<u8>, io::Result<()
                 }
             }
         }
+        Consumer::Blocks(n) => consume_blocks(r, n),
         _ => {
             let res = r.read_to_end(&mut out).map(|_| ());
             (out, res)
@@ -506,9 +556,9 @@ fn armor_family(ctx: &mut Ctx, n: usize) {
                         scheds.push(Sched::cut_cr_lf(text));
                     }
                     for (si, sched) in scheds.iter().enumerate() {
-                        for (ci, cons) in [Consumer::ReadToEnd, Consumer::Read(1), Consumer::Read(3), Consumer::Read(4096)].into_iter().enumerate() {
+                        for (ci, cons) in [Consumer::ReadToEnd, Consumer::Read(1), Consumer::Read(3), Consumer::Read(4096), Consumer::Blocks(16), Consumer::Blocks(64), Consumer::Blocks(4096)].into_iter().enumerate() {
                             let d = || format!("{vdesc} {} source pieces {} consumer {cons:?}", if ei == 0 { "LF" } else { "CRLF" }, sched.name());
-                            ctx.case(cid(1, li, variant, 0x100 + ei * 0x40 + si * 4 + ci, 0), &d, &mut || {
+                            ctx.case(cid(1, li, variant, 0x100 + ei * 0x80 + si * 8 + ci, 0), &d, &mut || {
                                 let mut dearmor = Dearmor::new(ChunkedReader::new(text, sched.clone()));
                                 let (out, res) = consume_read_only(&mut dearmor, cons);
                                 res.map_err(|e| format!("(a1) dearmor failed after {} octets: {e}", out.len()))?;
@@ -679,7 +729,7 @@ fn base64_family(ctx: &mut Ctx, n: usize) {
         for (vi, lb) in [None, Some(&b"\n"[..]), Some(&b"\r\n"[..])].into_iter().enumerate() {
             let text = b64_encode(&payload, lb);
             for (si, sched) in [Sched::Fixed(1), Sched::Fixed(2), Sched::Fixed(3), Sched::Fixed(5), Sched::Fixed(7), Sched::Fixed(64), Sched::Fixed(65), Sched::Whole].into_iter().enumerate() {
-                for (ci, cons) in [Consumer::ReadToEnd, Consumer::Read(1), Consumer::Read(5), Consumer::Read(4096)].into_iter().enumerate() {
+                for (ci, cons) in [Consumer::ReadToEnd, Consumer::Read(1), Consumer::Read(5), Consumer::Read(4096), Consumer::Blocks(16), Consumer::Blocks(64), Consumer::Blocks(4096)].into_iter().enumerate() {
                     let d = || format!("base64 of payload len {len}, line breaks {:?}, source pieces {}, consumer {cons:?}", lb.map(|l| if l.len() == 1 { "LF" } else { "CRLF" }), sched.name());
                     ctx.case(cid(9, li, vi, si, ci), &d, &mut || {
                         let (out, res) = if lb.is_none() {
@@ -1363,6 +1413,7 @@ fn message_family(ctx: &mut Ctx, n: usize, keys: &Keys) {
                 let Some(bytes) = bytes else { continue };
                 let small = len <= 600;
                 let mut combos: Vec<(Sched, Consumer)> = vec![];
+                // (no Blocks consumer here: Message::read(&mut []) fails on the reference tree - reported separately)
                 let conss = [Consumer::ReadToEnd, Consumer::Read(1), Consumer::Read(3), Consumer::Read(4096), Consumer::BufRead];
                 if small {
                     for s in [Sched::Whole, Sched::Fixed(1), Sched::Fixed(7), Sched::Fixed(512)] {
@@ -1563,7 +1614,7 @@ fn integrity_cases(ctx: &mut Ctx, keys: &Keys, shape: Shape, pi: usize, payload:
         for (mo, mode) in modes.iter().enumerate() {
             for (ci, cons) in [Consumer::Read(1), Consumer::Read(97), Consumer::ReadToEnd, Consumer::BufRead].into_iter().enumerate() {
                 let d = || format!("{base}: {what}; SEIPDv1 mode {mode:?}, consumer {cons:?}");
-                ctx.case(cid(5, pi, sc, mi + 1, mo * 4 + ci), &d, &mut || {
+                ctx.case(cid(5, pi, sc, mi + 1, mo * 8 + ci), &d, &mut || {
                     let o = read_message(keys, shape, &m[..], *mode, cons);
                     let rel = o.released.len();
                     if o.end.is_ok() {
@@ -1618,39 +1669,165 @@ fn sweeps(ctx: &mut Ctx, n: usize, keys: &Keys) {
             }
         }
     }
-    // every SEIPDv2 chunk size up to 32 KiB
-    let sizes = [ChunkSize::C64B, ChunkSize::C128B, ChunkSize::C256B, ChunkSize::C512B, ChunkSize::C1KiB, ChunkSize::C2KiB, ChunkSize::C4KiB, ChunkSize::C8KiB, ChunkSize::C16KiB, ChunkSize::C32KiB];
+    // every SEIPDv2 chunk size the builder accepts
+    let sizes = [
+        ChunkSize::C64B, ChunkSize::C128B, ChunkSize::C256B, ChunkSize::C512B, ChunkSize::C1KiB, ChunkSize::C2KiB, ChunkSize::C4KiB, ChunkSize::C8KiB, ChunkSize::C16KiB,
+        ChunkSize::C32KiB, ChunkSize::C64KiB, ChunkSize::C128KiB, ChunkSize::C256KiB, ChunkSize::C512KiB, ChunkSize::C1MiB, ChunkSize::C2MiB, ChunkSize::C4MiB,
+    ];
     let shape2 = Shape { text: false, compress: false, sign: 0, enc: 2 };
+    let build_v2 = |payload: &[u8], cs: ChunkSize, from_reader: bool| -> Result<Vec<u8>, String> {
+        let mut rng = ChaCha20Rng::seed_from_u64(9);
+        let s2k = StringToKey::new_iterated(&mut rng, Default::default(), 2);
+        if from_reader {
+            let mut b = MessageBuilder::from_reader("", ChunkedReader::new(payload, Sched::Fixed(512))).seipd_v2(&mut rng, SymmetricKeyAlgorithm::AES128, AeadAlgorithm::Ocb, cs);
+            b.encrypt_with_password(&mut rng, s2k, &PW.into()).map_err(|e| format!("(b1) {e}"))?;
+            b.to_vec(&mut rng)
+        } else {
+            let mut b = MessageBuilder::from_bytes("", payload.to_vec()).seipd_v2(&mut rng, SymmetricKeyAlgorithm::AES128, AeadAlgorithm::Ocb, cs);
+            b.encrypt_with_password(&mut rng, s2k, &PW.into()).map_err(|e| format!("(b1) {e}"))?;
+            b.to_vec(&mut rng)
+        }
+        .map_err(|e| format!("(b1) building failed: {e}"))
+    };
     for (si, cs) in sizes.into_iter().enumerate() {
         let b = cs.as_byte_size() as usize;
-        let mut lens = vec![0usize, 1, 16385];
-        for l in [b.saturating_sub(9), b.saturating_sub(8), b.saturating_sub(7), 2 * b - 8, 2 * b] {
-            if l <= 70000 && !lens.contains(&l) {
-                lens.push(l);
+        let mut lens = vec![0usize, 1, 100];
+        if b <= 32768 {
+            lens.push(16385);
+            for l in [b.saturating_sub(9), b.saturating_sub(8), b.saturating_sub(7), 2 * b - 8, 2 * b] {
+                if l <= 70000 && !lens.contains(&l) {
+                    lens.push(l);
+                }
             }
         }
         for (li, &len) in lens.iter().enumerate() {
             for (vi, from_reader) in [false, true].into_iter().enumerate() {
                 ctx.case(cid(8, si, li, vi, 0), &|| format!("SEIPDv2 chunk size {b} payload len {len} ({}): round trip", if from_reader { "from_reader pieces 512" } else { "from_bytes" }), &mut || {
                     let payload = bin_payload(len);
-                    let mut rng = ChaCha20Rng::seed_from_u64(9);
-                    let s2k = StringToKey::new_iterated(&mut rng, Default::default(), 2);
-                    let bytes = if from_reader {
-                        let mut b = MessageBuilder::from_reader("", ChunkedReader::new(&payload, Sched::Fixed(512))).seipd_v2(&mut rng, SymmetricKeyAlgorithm::AES128, AeadAlgorithm::Ocb, cs);
-                        b.encrypt_with_password(&mut rng, s2k, &PW.into()).map_err(|e| format!("(b1) {e}"))?;
-                        b.to_vec(&mut rng)
-                    } else {
-                        let mut b = MessageBuilder::from_bytes("", payload.clone()).seipd_v2(&mut rng, SymmetricKeyAlgorithm::AES128, AeadAlgorithm::Ocb, cs);
-                        b.encrypt_with_password(&mut rng, s2k, &PW.into()).map_err(|e| format!("(b1) {e}"))?;
-                        b.to_vec(&mut rng)
-                    }
-                    .map_err(|e| format!("(b1) building failed: {e}"))?;
+                    let bytes = build_v2(&payload, cs, from_reader)?;
                     for cons in [Consumer::ReadToEnd, Consumer::Read(4096)] {
                         let o = read_message(keys, shape2, &bytes[..], V1Mode::Default, cons);
                         check_roundtrip(&o, shape2, &payload)?;
                     }
                     Ok(true)
                 });
+            }
+        }
+
+        // (c5) header octet sweep: every value of the version, cipher, AEAD and chunk size octet
+        let full = n >= 2 || matches!(cs, ChunkSize::C64B | ChunkSize::C4KiB | ChunkSize::C4MiB);
+        let sweep_lens: Vec<usize> = if full { vec![0, 1, 100] } else { vec![1] };
+        for (li, &len) in sweep_lens.iter().enumerate() {
+            let payload = bin_payload(len);
+            let Ok(Ok(bytes)) = catch_unwind(AssertUnwindSafe(|| build_v2(&payload, cs, false))) else { continue };
+            let Some((off, hl, _)) = find_seipd(&bytes) else { continue };
+            let body = off + hl;
+            let octets: &[usize] = if full { &[0, 1, 2, 3] } else { &[3] };
+            for &oi in octets {
+                let oname = ["version", "cipher", "AEAD", "chunk size"][oi];
+                let orig = bytes[body + oi];
+                for v in 0..=255u8 {
+                    if v == orig {
+                        continue;
+                    }
+                    let conss: &[Consumer] = if n >= 2 { &[Consumer::ReadToEnd, Consumer::Read(7)] } else { &[Consumer::ReadToEnd] };
+                    for (ci, cons) in conss.iter().enumerate() {
+                        let d = || format!("SEIPDv2 chunk size {b} (octet {:#04x}) payload len {len} from_bytes: {oname} octet of the SEIPDv2 header changed from {orig:#04x} to {v:#04x}; consumer {cons:?}", cs as u8);
+                        ctx.case(cid(12, si, li * 4 + oi, v as usize, ci), &d, &mut || {
+                            let mut m = bytes.clone();
+                            m[body + oi] = v;
+                            let o = read_message(keys, shape2, &m[..], V1Mode::Default, *cons);
+                            match o.end {
+                                Err(_) if o.released.is_empty() => Ok(true),
+                                Err((stage, e)) => Err(format!("(c5) {} plaintext octets were released before the failure ({stage}: {e}); with a changed header no chunk can be authentic", o.released.len())),
+                                Ok(()) => Err(format!("(c5) the container with a changed {oname} octet was decrypted to a clean end: {} plaintext octets (identical to the payload: {})", o.released.len(), o.released == payload)),
+                            }
+                        });
+                    }
+                }
+            }
+        }
+    }
+}
+
+/// F6: the stream decryptors used directly (public constructors), every consumer kind incl. Blocks with empty reads:
+/// the result equals the read_to_end result (SEIPDv1: equals the plaintext that was encrypted)
+fn decryptor_family(ctx: &mut Ctx, n: usize) {
+    let mut lens = vec![0usize, 1, 15, 16, 17, 56, 64, 100, 500, 4087, 8170, 8192, 16385];
+    if n >= 2 {
+        lens.extend([63, 65, 4096, 8169, 8171, 20000]);
+    }
+    let conss = [Consumer::ReadToEnd, Consumer::Read(1), Consumer::Read(97), Consumer::BufRead, Consumer::Blocks(16), Consumer::Blocks(64), Consumer::Blocks(4096)];
+    let alg = SymmetricKeyAlgorithm::AES128;
+    let key = [0x42u8; 16];
+    for (li, &len) in lens.iter().enumerate() {
+        let plain = bin_payload(len);
+        // SEIPDv1 (CFB + MDC)
+        let ct = catch_unwind(AssertUnwindSafe(|| alg.encrypt_protected(ChaCha20Rng::seed_from_u64(5), &key, &plain).ok())).ok().flatten();
+        for (mo, mode) in [Seipdv1ReadMode::default(), Seipdv1ReadMode::Streaming].into_iter().enumerate() {
+            for (si, sched) in [Sched::Whole, Sched::Fixed(7)].into_iter().enumerate() {
+                for (ci, cons) in conss.into_iter().enumerate() {
+                    if len > 600 && matches!(cons, Consumer::Read(1)) && n < 2 {
+                        continue;
+                    }
+                    let d = || format!("SEIPDv1 stream decryptor (AES128, {mode:?}) over {len} plaintext octets, source pieces {}, consumer {cons:?}", sched.name());
+                    ctx.case(cid(13, li, mo * 2 + si, ci, 0), &d, &mut || {
+                        let Some(ct) = &ct else { return Err("(d1) encrypt_protected failed".into()) };
+                        let mut dec = alg.stream_decryptor_protected(mode, &key, ChunkedReader::new(ct, sched.clone())).map_err(|e| format!("(d1) setup: {e}"))?;
+                        let (out, res) = consume(&mut dec, cons);
+                        res.map_err(|e| format!("(d1) a valid stream failed after {} octets: {e}", out.len()))?;
+                        if out != plain {
+                            return Err(format!("(d1) decrypted {} octets, the plaintext is {} octets (what read_to_end returns)", out.len(), plain.len()));
+                        }
+                        Ok(true)
+                    });
+                }
+            }
+        }
+        // SEIPDv2 (the encrypted data of a message built with a known session key)
+        for (vi, cs) in [ChunkSize::C64B, ChunkSize::C4KiB].into_iter().enumerate() {
+            let built = catch_unwind(AssertUnwindSafe(|| -> Option<(Vec<u8>, [u8; 32])> {
+                let mut rng = ChaCha20Rng::seed_from_u64(6);
+                let mut b = MessageBuilder::from_bytes("", plain.clone()).seipd_v2(&mut rng, alg, AeadAlgorithm::Ocb, cs);
+                b.set_session_key(key.to_vec().into()).ok()?;
+                let m = b.to_vec(&mut rng).ok()?;
+                let (off, hl, _) = find_seipd(&m)?;
+                let body = &m[off + hl..];
+                let salt: [u8; 32] = body[4..36].try_into().ok()?;
+                Some((body[36..].to_vec(), salt))
+            }))
+            .ok()
+            .flatten();
+            let reference: Option<Vec<u8>> = built.as_ref().and_then(|(data, salt)| {
+                catch_unwind(AssertUnwindSafe(|| {
+                    let mut dec = pgp::crypto::aead::StreamDecryptor::new_rfc9580(alg, AeadAlgorithm::Ocb, cs, salt, &key, &data[..]).ok()?;
+                    let mut out = Vec::new();
+                    dec.read_to_end(&mut out).ok()?;
+                    Some(out)
+                }))
+                .ok()
+                .flatten()
+            });
+            for (si, sched) in [Sched::Whole, Sched::Fixed(7)].into_iter().enumerate() {
+                for (ci, cons) in conss.into_iter().enumerate() {
+                    if len > 600 && matches!(cons, Consumer::Read(1)) && n < 2 {
+                        continue;
+                    }
+                    let d = || format!("SEIPDv2 stream decryptor (AES128/OCB, chunk size {}) over a literal packet of {len} payload octets, source pieces {}, consumer {cons:?}", cs.as_byte_size(), sched.name());
+                    ctx.case(cid(13, li, 8 + vi * 2 + si, ci, 0), &d, &mut || {
+                        let (Some((data, salt)), Some(reference)) = (&built, &reference) else { return Err("(d1) building / reference decryption (read_to_end over a slice) failed".into()) };
+                        if !reference.ends_with(&plain) || reference.len() < plain.len() + 8 {
+                            return Err(format!("(d1) read_to_end returns {} octets that do not end with the payload", reference.len()));
+                        }
+                        let mut dec = pgp::crypto::aead::StreamDecryptor::new_rfc9580(alg, AeadAlgorithm::Ocb, cs, salt, &key, ChunkedReader::new(data, sched.clone())).map_err(|e| format!("(d1) setup: {e}"))?;
+                        let (out, res) = consume(&mut dec, cons);
+                        res.map_err(|e| format!("(d1) a valid stream failed after {} octets: {e}", out.len()))?;
+                        if &out != reference {
+                            return Err(format!("(d1) decrypted {} octets, read_to_end returns {} octets", out.len(), reference.len()));
+                        }
+                        Ok(true)
+                    });
+                }
             }
         }
     }
@@ -1679,9 +1856,10 @@ fn main() {
     tolerance_family(&mut ctx, n);
     message_family(&mut ctx, n, &keys);
     sweeps(&mut ctx, n, &keys);
+    decryptor_family(&mut ctx, n);
     println!(
-        "INFO cases per family: armor={} base64={} armored-builder={} reader-tolerance={} armor-retried-write={} builder={} reader={} reader-source-fault={} integrity={} seipdv1-sweep={} seipdv2-chunk-sizes={}",
-        ctx.per_family[1], ctx.per_family[9], ctx.per_family[10], ctx.per_family[11], ctx.per_family[6], ctx.per_family[2], ctx.per_family[3], ctx.per_family[4], ctx.per_family[5], ctx.per_family[7], ctx.per_family[8]
+        "INFO cases per family: armor={} base64={} armored-builder={} reader-tolerance={} header-octet-sweep={} decryptors={} armor-retried-write={} builder={} reader={} reader-source-fault={} integrity={} seipdv1-sweep={} seipdv2-chunk-sizes={}",
+        ctx.per_family[1], ctx.per_family[9], ctx.per_family[10], ctx.per_family[11], ctx.per_family[12], ctx.per_family[13], ctx.per_family[6], ctx.per_family[2], ctx.per_family[3], ctx.per_family[4], ctx.per_family[5], ctx.per_family[7], ctx.per_family[8]
     );
     println!("RESULT total={} nontrivial={} failures={}", ctx.total, ctx.nontrivial, ctx.failures);
 }
